@@ -74,7 +74,7 @@ func c02Repeat(useShipped bool) func(t *rapid.T) {
 			}
 			cmds, cls = db.Commands, "shipped"
 		} else {
-			cmds, cls = gen.DB(t, gen.CmdOpts{Platforms: rapid.Bool().Draw(t, "plat")}, []int{0, 1, 10, 6, 1})
+			cmds, cls = gen.DB(t, gen.CmdOpts{Platforms: rapid.Bool().Draw(t, "plat"), Sized: true, Long: true, Heavy: true}, []int{0, 1, 10, 6, 1})
 			path = gen.WriteDB(t, cmds)
 			defer os.Remove(path)
 			var err error
